@@ -143,7 +143,9 @@ func (b *SaioBox) Info(w io.Writer, specificBoxLevels, indent, indentStep string
 	}
 	bd.write(" - sampleCount: %d", len(b.Offset))
 	level := getInfoLevel(b, specificBoxLevels)
-	bd.write(" - offset[%d]=%d", 1, b.Offset[0])
+	if len(b.Offset) > 0 {
+		bd.write(" - offset[%d]=%d", 1, b.Offset[0])
+	}
 	if level > 0 {
 		for i := 1; i < len(b.Offset); i++ {
 			bd.write(" - offset[%d]=%d", i+1, b.Offset[i])
